@@ -30,8 +30,11 @@ from dataclasses import dataclass, field
 from typing import Any, Callable
 
 VERIF = os.path.dirname(os.path.dirname(os.path.abspath(__file__)))
-EVIDENCE_DIR = os.path.join(VERIF, "evidence")
-REPLAY_DIR = os.path.join(VERIF, "replays")
+# VERIF_OUT (mutation testing only): write evidence / replays elsewhere so that a run against a
+# mutated checkout never overwrites the evidence of the real tree
+_OUT = os.environ.get("VERIF_OUT") or VERIF
+EVIDENCE_DIR = os.path.join(_OUT, "evidence")
+REPLAY_DIR = os.path.join(_OUT, "replays")
 
 MAX_SAMPLES = 12
 MAX_VIOLATIONS_PER_SHARD = 8
